@@ -114,9 +114,21 @@ def fn_span(src, name, nth=0, cfg_hint=None):
     if len(hits) <= nth:
         raise LostAnchor("function `%s` (occurrence %d) not found" % (name, nth))
     m = hits[nth]
-    brace = src.find("{", m.end())
-    semi = src.find(";", m.end())
-    if brace < 0 or (0 <= semi < brace):
+    # body = first `{` at bracket depth 0 after the name (array types like `[bool; 2]` contain `;`)
+    depth, i, brace = 0, m.end(), -1
+    while i < len(src):
+        c = src[i]
+        if c in "([<" and not (c == "<" and src[i - 1] == "-"):
+            depth += 1 if c != "<" else 0
+        elif c in ")]":
+            depth -= 1
+        elif c == ";" and depth == 0:
+            break
+        elif c == "{" and depth == 0:
+            brace = i
+            break
+        i += 1
+    if brace < 0:
         raise LostAnchor("function `%s` has no body" % name)
     # the first `{` after the signature could belong to a where clause type; fine for this crate
     end = match_brace(src, brace)
